@@ -9,6 +9,7 @@ one() {
   wt=$(mktemp -d /tmp/rm-wt.XXXXXX); rmdir "$wt"; vd=$(mktemp -d /tmp/rm-vd.XXXXXX)
   git -C /repo worktree add -q --detach "$wt" HEAD || exit 2
   { git -C "$wt" apply "$(realpath "$d/patch.diff")" 2>/dev/null || git -C "$wt" apply --3way "$(realpath "$d/patch.diff")" 2>/dev/null; } || { echo "$id APPLY-FAILED"; git -C /repo worktree remove --force "$wt"; exit 0; }
+  (cd "$wt" && GOFLAGS=-mod=mod GOPROXY=off GOSUMDB=off GOTOOLCHAIN=local go build ./... >/dev/null 2>&1) || { echo "$id MERGE-BROKEN (the patch no longer builds on the moved tree)"; git -C /repo worktree remove --force "$wt"; exit 0; }
   ln -s /verif/known_findings.json "$vd/known_findings.json"; ln -s /verif/tools "$vd/tools"
   out="$d/.alarms.txt"; : > "$out"
   for p in C01 C02 C03 C04 C05 C06 C07 C08 C09 C10 C11 C12 C13 C14 C15 C16 C17 C18 C19; do
